@@ -1,9 +1,9 @@
 """C07 — spike-cluster index utilities partition the spikes (DESIGN.md §5 C07)."""
 import itertools
-from fractions import Fraction
 import numpy as np
 from . import common as C
 from . import dataset as D
+from . import dense_common as DC
 
 PID = 'C07'
 PARALLEL = False
@@ -11,7 +11,7 @@ BATCH = 3000
 BUDGET_S = {'quick': 70, 'thorough': 900}
 DT = {'int32': (32, True), 'int64': (64, True), 'uint16': (16, False), 'uint32': (32, False)}
 RULE = ('exhaustive: all assignment vectors of length <= L over the id alphabet {0,2,3,7} x dtypes '
-        'int32/int64/uint16/uint32 x with/without spike-id vector; requested cluster lists unsorted '
+        'int32/int64/uint16/uint32 x with/without spike-id vector (increasing, and unsorted / repeated ids); requested cluster lists unsorted '
         'and partly absent; unsorted lookups; then random long vectors; TemplateModel queries on '
         'generated datasets. non-trivial = at least two spikes and two distinct ids')
 ASSUMPTIONS = ['grouped_mean: integer-valued data so that the sum is exact; the single float division '
@@ -102,7 +102,9 @@ def judge(case, impl_res, ans):
             return 'SPEC: groups differ from {cluster: increasing member spikes}'
         return None
     if op == 'gmean':
-        exp = [float(Fraction(s, n)) for s, n in m]
+        # the quotients are computed by the Lean model (`groupedMeanQ`, exact); the real code performs one
+        # float division per cluster, i.e. the correctly rounded exact quotient
+        exp = [DC.to_float(x) for x in ans['ok']['mean']]
         if ok != exp:
             return 'SPEC: grouped mean differs from sum/count per sorted cluster'
         return None
@@ -134,7 +136,8 @@ def tally(rep, case, impl_res, ans):
         rep.count('values_dtype:' + case.get('adtype', 'float64'))
     if case['op'] == 'spc':
         rep.count('len:%s' % (len(case['sc']) if len(case['sc']) < 8 else '8+'))
-        rep.count('ids:%s' % ('given' if case.get('ids') is not None else 'none'))
+        ids = case.get('ids')
+        rep.count('ids:%s' % ('none' if ids is None else 'given, increasing' if ids == sorted(set(ids)) else 'given, unsorted or repeated'))
 
 
 def classify(case, impl_res, ans, why):
@@ -174,6 +177,9 @@ def gen(tier, rng):
                 c = dict(p=PID, op='spc', sc=list(sc), dtype=dt)
                 if k % 3 == 0:
                     c['ids'] = [100 + 3 * i for i in range(n)]
+                elif k % 3 == 1 and n >= 2:
+                    # supplied ids in arbitrary order, with repetitions: never sorted by the helper
+                    c['ids'] = [(7 * i + k) % 11 for i in range(n)]
                 yield c
             if n <= 5:
                 cl = [[7], [3, 0], [5, 2, 7], [9], [2, 2, 0]][k % 5]
@@ -225,6 +231,8 @@ def gen(tier, rng):
             c = dict(p=PID, op='spc', sc=sc, dtype=dt)
             if rng.random() < .5:
                 c['ids'] = sorted(rng.sample(range(5000), n))
+                if rng.random() < .4:
+                    rng.shuffle(c['ids'])
             yield c
         elif t == 1:
             cl = rng.sample(range(0, R), rng.randrange(1, 8 if R == 60 else 70)) + rng.sample(ids, rng.randrange(0, len(ids) + 1))
